@@ -19,6 +19,20 @@ type BlockEnv struct {
 	// BlockHash returns the hash of an ancestor; ok=false means the tool input did not
 	// provide it (transition-tool convention: the run is a tool error).
 	BlockHash func(n uint64) (h Hash, ok bool)
+	Quirks    Quirks
+}
+
+// Quirks switch single rules of the model to the behaviour observed in go-ethereum where it
+// knowingly departs from the EIP text. They are all false in the oracle; a harness flips
+// exactly one of them to decide whether an observed disagreement is fully explained by that
+// known divergence.
+type Quirks struct {
+	// NoStorageCollision: contract creation does not collide with an account that has
+	// storage but neither nonce nor code (EIP-7610 not applied).
+	NoStorageCollision bool
+	// NoDepositLayoutCheck: a 576-byte deposit event is accepted without validating its
+	// ABI offset/size words (EIP-6110 is_valid_deposit_event_data not applied).
+	NoDepositLayoutCheck bool
 }
 
 // TxEnv is the transaction context seen by the EVM.
@@ -37,6 +51,7 @@ type Step struct {
 	Depth   int    // 1-based like geth's logger
 	Stack   []*big.Int
 	MemSize int
+	Refund  int64  // refund counter before the operation
 	Err     string // halting reason if the operation halted exceptionally
 }
 
@@ -321,6 +336,28 @@ func ParseDelegation(code []byte) (Address, bool) {
 	return BytesToAddress(code[3:]), true
 }
 
+// HaltCollisionStorageOnly is counted (in addition to HaltCollision) when the only reason for
+// the collision is non-empty storage (EIP-7610).
+const HaltCollisionStorageOnly = "address collision (storage only)"
+
+// collides is the contract-creation collision predicate: non-zero nonce, non-empty code
+// (EIP-684) or non-empty storage (EIP-7610).
+func (e *EVM) collides(addr Address) bool {
+	acc := e.w.accts[addr]
+	if acc == nil || (acc.Nonce == 0 && len(acc.Code) == 0 && len(acc.Storage) == 0) {
+		return false
+	}
+	if acc.Nonce == 0 && len(acc.Code) == 0 && e.B.Quirks.NoStorageCollision {
+		e.cov(HaltCollisionStorageOnly)
+		return false
+	}
+	e.cov(HaltCollision)
+	if acc.Nonce == 0 && len(acc.Code) == 0 {
+		e.cov(HaltCollisionStorageOnly)
+	}
+	return true
+}
+
 func (e *EVM) isPrecompile(a Address) bool { return isPrecompile(e.B.Fork, a) }
 
 // ---- message execution ----
@@ -442,7 +479,7 @@ func (e *EVM) interpret(m *Message) (res Result) {
 		if e.Tracer != nil {
 			st := make([]*big.Int, len(f.stack))
 			copy(st, f.stack)
-			f.step = &Step{PC: uint64(f.pc), Op: op, Gas: f.gas, Depth: m.Depth + 1, Stack: st, MemSize: len(f.mem)}
+			f.step = &Step{PC: uint64(f.pc), Op: op, Gas: f.gas, Depth: m.Depth + 1, Stack: st, MemSize: len(f.mem), Refund: e.w.refund}
 		}
 		done, r := f.exec(op)
 		e.emit(f, "")
